@@ -110,7 +110,8 @@ class Run:
         files = []
         inputs = []
         for k, inp in enumerate(scn["inputs"]):
-            f = d / f"in{k}.hex"
+            # file names with characters that are special to shells and pattern matchers are legal file names
+            f = d / (f"in{k}.hex", f"mpi[app]{k}.hex", f"in{k} (copy).hex", f"in*{k}?.hex")[(k + len(scn["inputs"])) % 4]
             a = scn["addr"] + inp["off"]
             if inp["src"] == "tool":
                 v, c = NAMES[inp["seed"] % len(NAMES)]
